@@ -7,9 +7,13 @@ package rt
 // build.  The package clause is rewritten per package under test.
 
 import (
+	"crypto/sha1"
 	"encoding/json"
 	"fmt"
+	"io"
 	"os"
+	"path/filepath"
+	"sort"
 	"strconv"
 )
 
@@ -219,8 +223,62 @@ func vConcrete(x int) int { return x }
 //verif:intrinsic
 func vLog(v interface{}) {}
 
+// ---- model file system access (natively: real files under a temporary directory) ----
+
+var vTempDirs []string
+
+//verif:intrinsic
+func vTempDir() string {
+	d, err := os.MkdirTemp("", "verif-vfs-")
+	if err != nil {
+		panic(err)
+	}
+	vTempDirs = append(vTempDirs, d)
+	return d
+}
+
+//verif:intrinsic
+func vFSRead(name string) ([]byte, bool) {
+	b, err := os.ReadFile(name)
+	return b, err == nil
+}
+
+//verif:intrinsic
+func vFSWrite(name string, data []byte) {
+	if err := os.WriteFile(name, data, 0o644); err != nil {
+		panic(err)
+	}
+}
+
+//verif:intrinsic
+func vFSRemove(name string) { os.Remove(name) }
+
+//verif:intrinsic
+func vFSList(dir string) []string {
+	m, _ := filepath.Glob(filepath.Join(dir, "*"))
+	sort.Strings(m)
+	return m
+}
+
+// vDigest: byte k of the digest of data. Symbolically an uninterpreted function of
+// (length, bytes); natively SHA-1.
+//
+//verif:intrinsic
+func vDigest(data []byte, k int) byte {
+	s := sha1.Sum(data)
+	return s[k]
+}
+
+func vCleanupTemp() {
+	for _, d := range vTempDirs {
+		os.RemoveAll(d)
+	}
+	vTempDirs = nil
+}
+
 // vRunHarness runs one harness natively, converting assumption failures into a SKIP line.
 func vRunHarness(name string, f func()) {
+	defer vCleanupTemp()
 	defer func() {
 		if r := recover(); r != nil {
 			if s, ok := r.(vSkip); ok {
@@ -299,3 +357,45 @@ func vm_IndexString(a, b string) int {
 
 //verif:model internal/bytealg.MakeNoZero
 func vm_MakeNoZero(n int) []byte { return make([]byte, n) }
+
+//verif:model io.Copy
+func vm_ioCopy(dst io.Writer, src io.Reader) (int64, error) {
+	buf := make([]byte, 64)
+	var written int64
+	for {
+		nr, er := src.Read(buf)
+		if nr > 0 {
+			nw, ew := dst.Write(buf[:nr])
+			written += int64(nw)
+			if ew != nil {
+				return written, ew
+			}
+			if nw != nr {
+				return written, io.ErrShortWrite
+			}
+		}
+		if er != nil {
+			if er != io.EOF {
+				return written, er
+			}
+			return written, nil
+		}
+	}
+}
+
+// identity flate stream (decompression correctness is assumed, DESIGN §2.5)
+type vmFlateReader struct{ r io.Reader }
+
+func (f *vmFlateReader) Read(p []byte) (int, error) { return f.r.Read(p) }
+func (f *vmFlateReader) Close() error               { return nil }
+
+//verif:model compress/flate.NewReader
+func vm_flateNewReader(r io.Reader) io.ReadCloser { return &vmFlateReader{r} }
+
+//verif:intrinsic
+func vFSNoDir(name string) {}
+
+// vIsModel: true under the symbolic engine (environment stubs in force), false natively.
+//
+//verif:intrinsic
+func vIsModel() bool { return false }
